@@ -105,6 +105,16 @@ def r3(run):
     if not nxt:
         return
     loop_head = nxt[0].bb
+    # the loop iterates the raw iterator itself: an adaptor (take / skip / step_by ...) between iter_frames and the expiry test would
+    # bound or thin the scan BEFORE expired frames are dropped
+    chain = []
+    x = strip(nxt[0].arg(0))
+    while x[0] == "call" and x[1].fn != C.ITER_FRAMES and len(chain) < 10:
+        if x[1].fn.startswith(ITER):
+            chain.append(x[1].fn.split("::")[-1])
+        x = strip(x[2][0]) if x[2] else ("end",)
+    run.ob("%s|history|scan-unbounded-before-expiry" % C.READ, not chain and x[0] == "call" and x[1].fn == C.ITER_FRAMES, nxt[0].sp,
+           "the history loop iterates iter_frames(..) directly (adaptors before the expiry test: %s)" % chain, reason="limit-before-expiry-filter")
     tests = expiry_tests(h)
     run.floor("expiry tests in the history loop", len(tests), 1, h.sp)
     cl, cmp_bb, rel = count_local(h)
